@@ -305,6 +305,7 @@ def main():
             for case, fail in failures:
                 kf = mod.match_known(case, fail, known) if hasattr(mod, 'match_known') else None
                 if kf is not None:
+                    stats.add('known:%s:%s' % (kf['id'], fail.get('clause')))
                     if kf['id'] not in known_hit:
                         known_hit.append(kf['id'])
                         log('KNOWN-FINDING: property=%s %s' % (pid, kf['what']))
